@@ -238,6 +238,14 @@ def make_record(pa, c, d, al, D, de_int, scale, mode, tol, *, search, band=0, wa
         dis, tup = cands
         rec["hascands"] = 1
         rec["cands"] = [[[int(x) for x in t], sc(v, k)] for t, v in zip(tup, dis)]
+        # shape of what valid_alignments() returned: one column per annotator, every entry a unit index of that annotator or
+        # its "empty" index, as many disorders as tuples - anything else cannot even be read as a candidate list
+        ok_shape = len(tup) == len(dis) and all(len(t) == n and all(0 <= int(t[a]) <= sizes[a] for a in range(n)) for t in tup)
+        if not ok_shape:
+            rec["cands"], rec["hascands"] = [], 0
+            rec["_malformed"] = {"what": "valid_alignments() returned tuples that are not one-slot-per-annotator candidate tuples",
+                                 "n_annotators": n, "sizes": sizes, "first_rows": [[int(x) for x in t] for t in list(tup)[:5]],
+                                 "n_tuples": int(len(tup)), "n_disorders": int(len(dis))}
     rec["_meta"] = meta or {}
     return rec
 
